@@ -60,9 +60,23 @@ def run(repo: Repo, rep: Report, tier: str) -> None:
     mod = repo.module("expression.py")
     binary = dict((k, v) for k, _, v in dict_items(class_attr(repo, "Expression", "binary_operators")))
     unary = dict((k, v) for k, _, v in dict_items(class_attr(repo, "Expression", "unary_operators")))
-    prec_nodes = dict_items(class_attr(repo, "Expression", "precedence_levels"))
-    prec = {k: const_value(v) for k, _, v in prec_nodes}
-    ploc = {k: f"{mod.path}:{kn.lineno}" for k, kn, _ in prec_nodes}
+    prec_node = class_attr(repo, "Expression", "precedence_levels")
+    if isinstance(prec_node, ast.Dict) and all(k is not None for k in prec_node.keys):
+        prec_nodes = dict_items(prec_node)
+        prec = {k: const_value(v) for k, _, v in prec_nodes}
+        ploc = {k: f"{mod.path}:{kn.lineno}" for k, kn, _ in prec_nodes}
+    else:
+        # a computed table: fold the expression over the (keys of the) operator tables declared before it
+        from ..minieval import Evaluator, Refused
+
+        try:
+            val = Evaluator({}).ev(prec_node, {"binary_operators": dict.fromkeys(binary), "unary_operators": dict.fromkeys(unary)})
+        except Refused as e:
+            raise AnalysisError(f"Expression.precedence_levels is computed by an expression outside the evaluator's whitelist: {e}") from e
+        if not (isinstance(val, dict) and all(isinstance(v_, int) for v_ in val.values())):
+            raise AnalysisError("Expression.precedence_levels does not fold to a symbol -> level mapping")
+        prec = dict(val)
+        ploc = {k: f"{mod.path}:{prec_node.lineno}" for k in prec}
 
     # ---- R3 first (it tells which unary key is the minus marker)
     marker = None
@@ -209,6 +223,7 @@ def run(repo: Repo, rep: Report, tier: str) -> None:
     from .c07 import parse_time_count_rule
 
     parse_time_count_rule(repo, rep, "C10.R8")
+    operand_conversion_rule(repo, rep, "C10.R9")
 
 
 def unary_marking_rule(repo: Repo, rep: Report, rid: str, max_len: int) -> None:
@@ -228,6 +243,29 @@ def unary_marking_rule(repo: Repo, rep: Report, rid: str, max_len: int) -> None:
     rep.check(not bad, rid, f"{fi.key}:fold", f"{fold['cases']} token lists agree with the specification",
               f"token list {bad[0][0] if bad else ''} is marked {bad[0][1] if bad else ''}, expected {bad[0][2] if bad else ''}: a '-' that should be unary stays "
               "binary (or the reverse), so e.g. '--1' or '3 * --2' no longer evaluates to its C value", fi.loc())
+
+
+def operand_conversion_rule(repo: Repo, rep: Report, rid: str) -> None:
+    rep.rule(rid, "operands are plain integers: every identifier value pushed on the operand queue (from the context or the constants) is converted "
+                  "with int() first - the operators then never run on int subclasses such as Flag members, whose ~ is not the integer complement")
+    ev = repo.func("expression.py", "Expression.evaluate")
+    n = 0
+    for c in walk_body(ev.node.body):
+        if isinstance(c, ast.Call) and call_name(c) == "append" and c.args and any(
+                isinstance(x, ast.Subscript) and any(k in norm(x.value) for k in ("context", "consts", "symbols", "names")) for x in ast.walk(c.args[0])):
+            n += 1
+            rep.check(isinstance(c.args[0], ast.Call) and norm(c.args[0].func) == "int", rid, f"{ev.key}:push {short(c.args[0], 40)}", "converted with int()",
+                      f"'{short(c, 60)}' pushes the looked-up object itself: for a Flag member '~x' is then the flag complement within the known bits "
+                      "(~RO == 6 for members 1, 2, 4), not the integer complement -2", ev.loc(c))
+    rep.floor(rid, "identifier pushes", n, 2)
+    init = repo.func("expression.py", "Expression.__init__")
+    stores = [s_ for f_ in repo.cls("Expression").methods.values() for s_ in walk_body(f_.node.body) if isinstance(s_, ast.Assign)
+              and isinstance(s_.targets[0], ast.Attribute) and s_.targets[0].attr in ("tokens", "_tokens") and norm(s_.targets[0].value) == f_.self_name]
+    in_init = [s_ for s_ in stores if any(s_ is x for x in walk_body(init.node.body))]
+    marked = all(isinstance(s_.value, ast.Call) and call_name(s_.value) == "_mark_unary_minus" for s_ in stores)
+    rep.check(bool(in_init) and len(stores) == len(in_init) and marked, rid, f"{init.key}:tokens", "the token list is tokenised and marked in __init__, before the object can be shared",
+              "the token list is stored on the Expression before its unary-minus marking is complete (or lazily, on first use): a second thread evaluating the "
+              "shared Expression in that window works on unmarked tokens ('-2 * 3' raises 'not enough operands')", init.loc())
 
 
 def lookup_order_rule(repo: Repo, rep: Report, R6: str) -> None:
